@@ -120,6 +120,47 @@ pub fn insert_col_bad<const C: usize, const R: usize, const N: usize, const L: u
 }
 
 // ---------------------------------------------------------------- remove_col / DrainCol (C07, C01)
+/// the provided / overridden jump methods of the column drain: nth(k) / nth_back(k) after one cell
+/// has been taken from the front must yield the cell an ideal double-ended sequence yields
+pub fn remove_col_nth<const C: usize, const R: usize, const N: usize>() {
+    let (mut t, a) = mk::<N>(C, R);
+    let idx: usize = kani::any();
+    kani::assume(idx < C);
+    let k: usize = kani::any();
+    kani::assume(k <= R + 1);
+    let take_first: bool = kani::any();
+    {
+        let mut d = t.remove_col(idx);
+        let mut f = 0;
+        if take_first {
+            let got = d.next();
+            assert!(got == Some(a[idx]), "C07 next yields the first cell of the column");
+            f = 1;
+        }
+        let rem = R - f;
+        if kani::any() {
+            let got = d.nth(k);
+            if k < rem {
+                assert!(got == Some(a[(f + k) * C + idx]), "C07 nth(k) yields the k-th remaining cell");
+                assert!(d.len() == rem - k - 1, "C07 len after nth");
+            } else {
+                assert!(got.is_none(), "C07 nth beyond the end yields None");
+                assert!(d.len() == 0);
+            }
+        } else {
+            let got = d.nth_back(k);
+            if k < rem {
+                assert!(got == Some(a[(R - 1 - k) * C + idx]), "C07 nth_back(k) yields the k-th cell from the end");
+                assert!(d.len() == rem - k - 1, "C07 len after nth_back");
+            } else {
+                assert!(got.is_none(), "C07 nth_back beyond the end yields None");
+                assert!(d.len() == 0);
+            }
+        }
+    }
+    assert!(wf(&t), "C01 shape invariant after DrainCol drop");
+}
+
 pub fn remove_col_ok<const C: usize, const R: usize, const N: usize>() {
     let (mut t, a) = mk::<N>(C, R);
     let idx: usize = kani::any();
@@ -738,6 +779,8 @@ h!(k_pop_empty, pop_empty,);
 
 h!(k_remove_col_forget_2x2, remove_col_forget, 2, 2, 4);
 h!(k_remove_col_forget_3x2, remove_col_forget, 3, 2, 6);
+hl!(k_remove_col_nth_2x3, remove_col_nth, 2, 3, 6);
+hl!(k_remove_col_nth_3x2, remove_col_nth, 3, 2, 6);
 h!(k_remove_col_forget_1x2, remove_col_forget, 1, 2, 2);
 
 hl!(k_drops_history_2x2, drops_history, 2, 2);
